@@ -1016,9 +1016,11 @@ class Walker:
       `stops`, or at a diverging call.
     """
 
-    def __init__(self, body, max_paths=20000):
+    def __init__(self, body, max_paths=20000, inline=None, depth=0):
         self.body = body
         self.max_paths = max_paths
+        self.inline = inline or set()     # crate-local callees whose paths are spliced into the caller's paths
+        self.depth = depth
 
     def walk(self, start=0, stops=(), env=None, enter_loops=False, start_is_header=None, plain_headers=(), stop_after_loop=False):
         body = self.body
@@ -1187,6 +1189,9 @@ class Walker:
                         for cap, m in zip(at[2], at[3]):
                             if m:
                                 mut_roots.append(cap)
+                if name in self.inline and self.depth < 3 and body.facts is not None and name in body.facts.bodies and "t" in t:
+                    self._inline_call(n, t, name, args, ev, events, known, blocks)
+                    return
                 events.append(Ev("call", n, name, args, res, tuple(mut_roots), span=t["span"]["line"]))
                 for r in mut_roots:
                     self._invalidate(ev, known, r)
@@ -1261,6 +1266,94 @@ class Walker:
                 return
             self._finish(events, ("unknown-terminator", k), ev, blocks)
             return
+
+    def _inline_call(self, n, t, name, args, ev, events, known, blocks):
+        """splice every path of the crate-local callee into the caller's path (P2: inlined supergraph).
+        Callee-local variables and call sites are re-tagged so that they cannot collide with the caller's."""
+        body = self.body
+        cb = _closure_body(body.facts, name)
+        env0 = {i + 1: a for i, a in enumerate(args)}
+        sub = Walker(cb, max_paths=self.max_paths, inline=self.inline, depth=self.depth + 1)
+        cpaths = sub.walk(0, env=env0)
+        tag = ("inl", name, n)
+
+        def retag(x):
+            if not isinstance(x, tuple) or not x:
+                return x
+            if x[0] in ("var",) and not (isinstance(x[1], tuple) and x[1] and x[1][0] == "inl"):
+                return T("var", (tag, x[1]), x[2], x[3])
+            if x[0] == "loopvar" and not (isinstance(x[1], tuple)):
+                return T("loopvar", (tag, x[1]), x[2], x[3])
+            if x[0] == "call" and len(x) > 3 and x[3] is not None and not isinstance(x[3], tuple):
+                return T("call", x[1], tuple(retag(a) for a in x[2]), (tag, x[3]))
+            if x[0] in ("next", "elem") and len(x) > 2 and not isinstance(x[2], tuple):
+                return T(x[0], retag(x[1]), (tag, x[2]))
+            return tuple(retag(a) if isinstance(a, tuple) else a for a in x)
+        # arguments are caller terms and must not be re-tagged: protect them by substitution afterwards is not
+        # possible in general, so re-tag only sub-terms that do not occur in the arguments
+        argset = set()
+        for a in args:
+            for s_ in subterms(a):
+                argset.add(s_)
+
+        def retag_safe(x):
+            if not isinstance(x, tuple) or not x:
+                return x
+            if x in argset:
+                return x
+            if x[0] == "var" and not (isinstance(x[1], tuple)):
+                return T("var", (tag, x[1]), x[2], x[3])
+            if x[0] == "loopvar" and not isinstance(x[1], tuple):
+                return T("loopvar", (tag, x[1]), x[2], x[3])
+            if x[0] == "call" and len(x) > 3 and x[3] is not None and not isinstance(x[3], tuple):
+                return T("call", x[1], tuple(retag_safe(a) if isinstance(a, tuple) else a for a in x[2]), (tag, x[3]))
+            if x[0] in ("next", "elem") and len(x) > 2 and not isinstance(x[2], tuple):
+                return T(x[0], retag_safe(x[1]), (tag, x[2]))
+            return tuple(retag_safe(a) if isinstance(a, tuple) else a for a in x)
+        for cp in cpaths:
+            if cp.outcome[0] in ("unreachable", "infeasible"):
+                continue
+            e2 = self._fork(ev)
+            evs2 = list(events)
+            k2 = dict(known)
+            evs2.append(Ev("enter", n, name, args, span=t["span"]["line"]))
+            feasible = True
+            for ce in cp.events:
+                ne = Ev(ce.kind, n, ce.a, ce.b, ce.c, ce.d, ce.span)
+                for fld in ("a", "b", "c", "d"):
+                    v = getattr(ne, fld)
+                    if isinstance(v, tuple):
+                        setattr(ne, fld, retag_safe(v))
+                if ne.kind == "guard":
+                    if ne.a in k2 and not self._compatible(k2[ne.a], ne.b):
+                        feasible = False
+                        break
+                    if not self._int_feasible(ne.a, ne.b, k2):
+                        feasible = False
+                        break
+                    k2[ne.a] = ne.b
+                    self._int_learn(ne.a, ne.b, k2)
+                if ne.kind == "call":
+                    for r in (ne.d or ()):
+                        self._invalidate(e2, k2, r)
+                evs2.append(ne)
+            if not feasible:
+                continue
+            evs2.append(Ev("leave", n, name))
+            if cp.outcome[0] != "return":
+                self._finish(evs2, cp.outcome, e2, blocks)
+                continue
+            res = retag_safe(cp.outcome[1]) if isinstance(cp.outcome[1], tuple) else cp.outcome[1]
+            dest = t["dest"]
+            if not dest["p"]:
+                e2.env[dest["l"]] = res
+            else:
+                saved = e2.mem
+                e2.mem = {}
+                pt = e2.place(dest)
+                e2.mem = saved
+                e2.mem[pt] = res
+            self._go(t["t"], e2, evs2, k2, blocks + [t["t"]])
 
     # ---- integer facts: (x == c) guards and integer switches on x must agree
     @staticmethod
